@@ -1105,12 +1105,15 @@ class StubsStringGenerator:
                     qname = class_id.replace("/", ".")
 
                     name = qname.split(".")[-1]
-                    shortest_qname, _ = _get_shortest_public_reexport(
-                        reexport_map=self.api.reexport_map,
-                        name=name,
-                        qname=qname,
-                        is_module=False,
-                    )
+                    shortest_qname = ""
+                    if class_id not in self.api.enums:
+                        # Enums are always created in their own module, not in the package that reexports them
+                        shortest_qname, _ = _get_shortest_public_reexport(
+                            reexport_map=self.api.reexport_map,
+                            name=name,
+                            qname=qname,
+                            is_module=False,
+                        )
 
                     if shortest_qname:
                         qname = f"{shortest_qname}.{name}"
